@@ -14,7 +14,9 @@ Inductive vaction :=
 | VFeed (n : nat) (tag : N)            (* the server behind connection n sends one frame *)
 | VEof (n : nat)
 | VCancel (c : nat)
-| VTClose.
+| VTClose
+| VFailClose (c : nat).                (* the gated write of c fails and the transport is closed while c is inside
+                                          closeWithErr; for the transition system: the write error, then Close *)
 
 (** [EvWrite c n]: call c entered Write on connection n; [EvDial c]: c asked for a dial;
     [EvRet c k a]: c returned — k = 0 a reply with tag a, k = 1 an error of class a
@@ -99,6 +101,9 @@ Definition at_rest (s : xst) (held : list nat) (c : nat) : bool :=
   | _ => false
   end.
 
+Definition close_readers (s1 : xst) : xst :=
+  fold_left (fun x n => match xstep x (MRecvErr n) with Some y => y | None => x end) (seq 0 (nconns s1)) s1.
+
 Definition exec_vaction (s : xst) (held : list nat) (a : vaction) : option (xst * list nat) :=
   match a with
   | VStart c => Some (s, held)      (* the call's labels are driven by its first event *)
@@ -134,7 +139,17 @@ Definition exec_vaction (s : xst) (held : list nat) (a : vaction) : option (xst 
     match xstep s MTClose with
     | Some s1 =>
       (* every reader sees its socket closed *)
-      Some (fold_left (fun x n => match xstep x (MRecvErr n) with Some y => y | None => x end) (seq 0 (nconns s1)) s1, held)
+      Some (close_readers s1, held)
+    | None => None
+    end
+  | VFailClose c =>
+    match xstep s (MWriteEnd c false) with
+    | Some s1 =>
+      let s2 := match xstep s1 (MRecvErr (uconn (xcalls s c))) with Some x => x | None => s1 end in
+      match xstep s2 MTClose with
+      | Some s3 => Some (close_readers s3, held)
+      | None => None
+      end
     | None => None
     end
   end.
@@ -223,7 +238,7 @@ Fixpoint spec_walk (c01 c02 c09 : bool) (tk : vtrk) (sc : list (vaction * vobs))
       | VWriteEnd c false _ =>
         (true, mkVT (vt_fed tk) (filter (fun x => negb (Nat.eqb (snd x) c)) (vt_outst tk)) (vt_owed tk) (vt_cancelled tk) (vt_closed tk))
       | VCancel c => (true, mkVT (vt_fed tk) (vt_outst tk) (vt_owed tk) (c :: vt_cancelled tk) (vt_closed tk))
-      | VTClose => (true, mkVT (vt_fed tk) [] (vt_owed tk) (vt_cancelled tk) true)
+      | VTClose | VFailClose _ => (true, mkVT (vt_fed tk) [] (vt_owed tk) (vt_cancelled tk) true)
       | _ => (true, tk)
       end in
     (* the events *)
@@ -264,7 +279,7 @@ Fixpoint vinwrite_at_end (w : list nat) (sc : list (vaction * vobs)) : list nat 
   match sc with
   | [] => w
   | (a, o) :: t =>
-    let w1 := match a with VWriteEnd c _ _ => gremove c w | _ => w end in
+    let w1 := match a with VWriteEnd c _ _ | VFailClose c => gremove c w | _ => w end in
     let w2 := fold_left (fun acc e => match e with EvWrite c _ => c :: acc | EvRet c _ _ => gremove c acc | _ => acc end) (v_events o) w1 in
     vinwrite_at_end w2 t
   end.
@@ -279,7 +294,7 @@ Fixpoint c07v_walk (closed : bool) (late : list nat) (sc : list (vaction * vobs)
   match sc with
   | [] => true
   | (a, o) :: t =>
-    let closed1 := match a with VTClose => true | _ => closed end in
+    let closed1 := match a with VTClose | VFailClose _ => true | _ => closed end in
     let late1 := match a with VStart c => if closed then c :: late else late | _ => late end in
     forallb (fun e => match e with
                       | EvRet c kd v => if gmem c late1 then (kd =? 1) && (v =? 1) else true
@@ -291,11 +306,11 @@ Definition spec_c07 (c : case) : bool :=
   match c with
   | CReuse script fb =>
     c07v_walk false [] script
-    && (if existsb (fun ao => match fst ao with VTClose => true | _ => false end) script
+    && (if existsb (fun ao => match fst ao with VTClose | VFailClose _ => true | _ => false end) script
         then forallb (fun c => gmem c (vheld_at_end [] script) || gmem c (vinwrite_at_end [] script)) fb else true)
   end.
 
 Definition vactions (c : case) := match c with CReuse script _ => map fst script end.
 Definition nontrivial (c : case) : bool :=
   (2 <=? length (filter (fun a => match a with VStart _ => true | _ => false end) (vactions c)))%nat
-  && existsb (fun a => match a with VFeed _ _ | VEof _ | VCancel _ | VTClose | VWriteEnd _ false _ => true | _ => false end) (vactions c).
+  && existsb (fun a => match a with VFeed _ _ | VEof _ | VCancel _ | VTClose | VFailClose _ | VWriteEnd _ false _ => true | _ => false end) (vactions c).
